@@ -1869,11 +1869,12 @@ SIGS = [  # (source of the parameter list, [(id, annotation id)], kwargs id, sel
 ]
 
 
-def impl_params(sig, events: List[Tuple[str, int, int]]) -> str:
+def impl_params(sig, events: List[Tuple[str, int, int]], fmt: str = "epytext") -> str:
     from pydoctor import model, epydoc2stan
     from pydoctor.stanutils import flatten
     plist, _, _, _, deco, method = sig
-    fields = "\n".join("%s@%s %s: TEXT%d" % ("    " * (2 if method else 1), {"P": "param", "K": "keyword", "T": "type"}[k], PNAMES[n], t)
+    fields = "\n".join("%s%s%s %s:%s" % ("    " * (2 if method else 1), "@" if fmt == "epytext" else ":", {"P": "param", "K": "keyword", "T": "type"}[k], PNAMES[n],
+                                         (" TEXT%d" % t) if t else "")        # text 0 = a field without any text
                        for k, n, t in events)
     if method:
         src = 'class C:\n    %sdef f(%s):\n        """\n        Doc.\n\n%s\n        """\n' % (deco, plist, fields)
@@ -1884,7 +1885,7 @@ def impl_params(sig, events: List[Tuple[str, int, int]]) -> str:
     buf = io.StringIO()
     with contextlib.redirect_stdout(buf):
         system = model.System()
-        system.options.docformat = "epytext"
+        system.options.docformat = fmt
         b = system.systemBuilder(system)
         b.addModuleString(src, modname="m")
         b.buildModules()
@@ -1927,7 +1928,7 @@ def params_oracle(ctx: Ctx, sig, events, out: str) -> None:
     reports = out.split(" | reports ")[1]
     for i, (k, n, t) in enumerate(events):
         later_same = any(k2 in (("P", "K") if k in "PK" else ("T",)) and n2 == n for k2, n2, _ in events[i + 1:])
-        shown = n in rows and rows[n][0 if k in "PK" else 1] == str(t)
+        shown = n in rows and rows[n][0 if k in "PK" else 1] == (str(t) if t else "-")
         if not shown and not later_same and not re.search(r":%d\b" % n, reports):
             ctx.fail("field:type-of-self-or-cls-silently-dropped" if (k == "T" and n == sig[3]) else
                      "field:%s-text-missing-from-parameters-table" % {"P": "param", "K": "keyword", "T": "type"}[k],
@@ -1954,11 +1955,19 @@ def stream_params(ctx: Ctx) -> None:
         sig = ctx.rng.choice(SIGS)
         names = sorted({p[0] for p in sig[1]} | {5, 6})
         cases.append((sig, [(ctx.rng.choice("PKT"), ctx.rng.choice(names), 30 + i) for i in range(ctx.rng.randint(3, 5))]))
-    for sig, events in cases:
-        out = impl_params(sig, events)
+    # described without any text (`@keyword timeout:`), alone and next to a type, in both orders, for every signature
+    for sig in SIGS:
+        for k in "KP":
+            for n in (5, sig[1][0][0] if sig[1] else 6):
+                cases += [(sig, [(k, n, 0)]), (sig, [(k, n, 0), ("T", n, 31)]), (sig, [("T", n, 31), (k, n, 0)]),
+                          (sig, [(k, n, 0), ("T", n, 31), (k, 6, 0), ("T", 6, 33)])]
+    cases = [(sig, ev, "epytext") for sig, ev in cases]
+    cases += [(sig, ev, "restructuredtext") for sig, ev, _ in cases if any(t == 0 for _, _, t in ev)]   # empty bodies differ per parser
+    for sig, events, fmt in cases:
+        out = impl_params(sig, events, fmt)
         reqs.append(params_request(sig, events))
         impls.append(out)
-        pay.append({"signature": sig[0], "fields": [list(e) for e in events], "names": PNAMES})
+        pay.append({"signature": sig[0], "fields": [list(e) for e in events], "names": PNAMES, "docformat": fmt})
         params_oracle(ctx, sig, events, out)
         ctx.count("params:fields=%d" % len(events))
     ctx.compare("FieldHandler(param/keyword/type, resolve_types, format)~Params.rows", reqs, impls, pay)
